@@ -177,6 +177,9 @@ FIXED = [
         vars_ += 1
     return (vars_,)
 ''', [A, B])),
+ ('C09', 'placeholder-defaults-kept-on-equal-code-cache-hit', '787db76',
+  "function without defaults that hit the cache entry of an equal-code function with defaults kept None placeholder defaults (f(a0, *, k0) became f(a0=None, *, k0=None))",
+  {'seed': 'C09/0/1/21', 'twin': True}),
  ('C04', 'nested-conditional-expression-native', '97e2f5a',
   "a conditional expression nested in the test or a branch of another one stayed native (visit_IfExp did not visit children)",
   'C04MATRIX'),
